@@ -309,5 +309,5 @@ fn golden(_: crate::engine::Tier) -> Vec<LoopCase> {
 
 fn groups(g: &mut Groups) {
     g.enumerate("threshold", golden, false, check_case);
-    g.prop("random", 36_000, 200_000, || case(), check_case);
+    g.prop("random", 36_000, 2_000_000, || case(), check_case);
 }
